@@ -38,6 +38,9 @@
 (* CtxWP        VCtxScaleWrite: returns value * factor, writes w := result  *)
 (* SliceCtxW    slice:VCtxScaleWrite:FloatDataCollection (per item; the     *)
 (*              last item's write is what remains under w)                  *)
+(* CtxBind      VCtxBump with parameters {context_key: k2} (a context      *)
+(*              processor whose output key is bound per node): ctx[k2] :=  *)
+(*              a + 1 where a is the parameter named "a"                   *)
 (* IncIP        VInPlaceIncrement: adds 1 to the payload in place and      *)
 (*              returns the object it received                             *)
 (* SweepCtxW    sweep over VCtxScaleWrite, parameters {factor: t}: one      *)
@@ -60,7 +63,7 @@ SourceKinds  == {"Src", "SrcDef", "Src0", "SweepSrc", "SweepSrcCtx", "PSrc", "PS
 FloatInKinds == {"Mul", "MulDef", "Add", "Sq", "Probe", "ProbeP", "Sink", "PSink", "Touch", "CtxW", "CtxWBad", "Boom", "Abort", "SweepMul",
                  "CtxWP", "SweepCtxW", "IncIP"}
 CollInKinds  == {"SliceMul", "SliceMulDef", "SliceProbe", "Sum", "SliceCtxW"}
-CtxKinds     == {"Rename", "Delete", "Template"}
+CtxKinds     == {"Rename", "Delete", "Template", "CtxBind"}
 ProbeKinds   == {"Probe", "SliceProbe", "ProbeP"}
 SweepKinds   == {"SweepSrc", "SweepMul", "SweepSrcCtx", "SweepCtxW"}
 PassKinds    == ProbeKinds \cup {"Sink", "PSink"} \cup CtxKinds      \* data passes through unchanged
@@ -70,6 +73,7 @@ ParamNames(n) ==
       [] n.kind \in {"Mul", "MulDef", "SliceMul", "SliceMulDef", "CtxWP", "SliceCtxW"} -> {"factor"}
       [] n.kind = "Add"                                        -> {"addend"}
       [] n.kind = "ProbeP"                                     -> {"factor"}
+      [] n.kind = "CtxBind"                                    -> {"a"}
       [] n.kind \in CtxKinds                                   -> {n.k1}
       [] n.kind = "SweepSrcCtx"                                -> {n.k1}
       [] OTHER                                                 -> {}
@@ -79,7 +83,7 @@ HasDefault(n, p) == \/ n.kind = "SrcDef" /\ p = "value"
 Default(n, p)    == IF n.kind = "SrcDef" THEN Num(42) ELSE IF n.kind = "ProbeP" THEN Num(1) ELSE Num(2)
 
 \* generated classes whose _process_logic takes **kwargs accept any configuration key
-KwargsAllowed(n) == n.kind \in CtxKinds \cup SweepKinds
+KwargsAllowed(n) == n.kind \in (CtxKinds \ {"CtxBind"}) \cup SweepKinds
 
 Configured(n, p) == p \in DOMAIN n.cfg
 UnknownParams(n) == IF KwargsAllowed(n) THEN {} ELSE (DOMAIN n.cfg) \ ParamNames(n)
@@ -96,7 +100,7 @@ OutT(n) == IF n.kind \in {"PSrc", "PSrcInj", "Touch", "Src", "SrcDef", "Src0", "
            ELSE "same"
 
 Created(n) == CASE n.kind \in ProbeKinds             -> {n.k1}
-                [] n.kind \in {"Rename", "Template"} -> {n.k2}
+                [] n.kind \in {"Rename", "Template", "CtxBind"} -> {n.k2}
                 [] n.kind \in {"CtxW", "CtxWBad", "CtxWP", "SliceCtxW"} -> {"w"}     \* declared keys (CtxWBad writes another one)
                 [] n.kind = "SweepCtxW"              -> {"t_values", "w"}   \* the element's declared key + the sweep's own
                 [] n.kind = "PSrcInj"                -> {"b"}
@@ -187,6 +191,7 @@ Apply(n, data, ctx, arg) ==
             IF arg[n.k1].t = "null" THEN Ok(data, ctx)             \* DeleteOfNoneIsNoOp
             ELSE IF ctx[n.k1] = Absent THEN Bad("proc", data, ctx) ELSE Ok(data, Set(ctx, n.k1, Absent))
       [] n.kind = "Template" -> Ok(data, Set(ctx, n.k2, Str(arg[n.k1])))
+      [] n.kind = "CtxBind" -> IF IsNum(arg["a"]) THEN Ok(data, Set(ctx, n.k2, Num(arg["a"].v + 1))) ELSE Bad("proc", data, ctx)
       [] n.kind \in {"SweepSrc", "SweepMul"} -> SweepOut(n, data, ctx, n.sw)
       [] n.kind = "SweepSrcCtx" ->
             IF arg[n.k1].t = "l" /\ arg[n.k1].items # <<>>
